@@ -276,7 +276,15 @@ def run(ctx, res):
         outs = M.batch(reqs)
         for (target, inp, got), m in zip(expect, outs):
             res.corr(target, inp, got, m)
+    setter_histories(ctx, res)
     res.sample({"theorems": "see Props/C11.v", "example written form": expect[1][2] if len(expect) > 1 else None})
+
+
+def setter_histories(ctx, res):
+    """a zoned value replaced through a property setter by a UTC / floating / date value (and back): what is written is the
+    last value's own form -- Z for UTC and no TZID, no TZID for floating, TZID = zone key for zoned (same oracle as C02's)"""
+    from . import c02
+    c02.setter_histories(ctx, res, common.rng_for(ctx.seed, "c11-setters"))
 
 
 def replay(ctx, data):
